@@ -372,7 +372,7 @@ func c31RunEgress(p c31EPlan) (res c31EResult) {
 	// "upstream address dies" plans: packets accepted before the sender has noticed the failure (and
 	// before 2 s have passed) may be lost with the connection; everything accepted later must arrive
 	var killedAt time.Time
-	var writeErrors0 uint64 // write errors counted before the kill
+	var writeErrors0 uint64       // write errors counted before the kill
 	detected := false             // a write error has been counted after the kill: the failed batch is settled, nothing more goes to the dead connection
 	optional := map[uint64]bool{} // accepted packets that are allowed to get lost (or, on different connections, to arrive twice)
 	nRequiredAfterKill := 0
@@ -750,11 +750,11 @@ func c31GenSustained() *rapid.Generator[c31EPlan] {
 // address of its pool.
 func c31GenDies() *rapid.Generator[c31EPlan] {
 	return rapid.Custom(func(t *rapid.T) c31EPlan {
-		p := c31EPlan{Upstreams: rapid.IntRange(3, 5).Draw(t, "upstreams")}
+		p := c31EPlan{Upstreams: rapid.SampledFrom([]int{5, 5, 3, 4}).Draw(t, "upstreams")}
 		size := func() int { return rapid.IntRange(12, 3000).Draw(t, "size") }
 		p.Steps = append(p.Steps, c31EStep{GapMs: rapid.IntRange(0, 300).Draw(t, "gap"), Burst: rapid.IntRange(1, 80).Draw(t, "warm"), Size: size()})
 		kill := "prim0"
-		if p.Upstreams == 5 && rapid.Bool().Draw(t, "two") {
+		if p.Upstreams == 5 && rapid.IntRange(0, 3).Draw(t, "single") < 3 { // mostly both of the first two addresses
 			kill = "prim01"
 		}
 		p.Steps = append(p.Steps, c31EStep{Kill: kill, GapMs: rapid.IntRange(0, 400).Draw(t, "gapAfterKill"), Burst: rapid.IntRange(0, 45).Draw(t, "burstAfterKill"), Size: size()})
